@@ -47,4 +47,11 @@ Better(x, y) ==
 Best(cands) == CHOOSE i \in 1..Len(cands) :
                  /\ \A j \in 1..Len(cands) : ~Better(cands[j], cands[i])
                  /\ \A j \in 1..(i - 1) : Better(cands[i], cands[j])
+
+\* ---- which earlier hit a relative piece is computed from, when the caller gave no RELATIVE_BASE (set_relative_base):
+\* the LAST already parsed piece that is not itself relative; none if every earlier piece is relative (or there is none).
+\* rel: for each already parsed piece, whether it is a relative phrase.  Result: its index, 0 for none.
+RECURSIVE LastAbsolute(_, _)
+LastAbsolute(rel, i) == IF i = 0 THEN 0 ELSE IF ~rel[i] THEN i ELSE LastAbsolute(rel, i - 1)
+RelativeBaseIndex(rel) == LastAbsolute(rel, Len(rel))
 =============================================================================
